@@ -7,7 +7,7 @@ From ZV Require Import Determ.Consts Determ.Model Determ.ModelRW Determ.Proofs.
 Import ListNotations.
 Open Scope N_scope.
 
-Lemma rw_isolation : forall q q' k, name_batchable q = true -> name_batchable q' = true ->
+Lemma rw_isolation : forall q q' k, batch_cand q = true -> batch_cand q' = true ->
   rpk q <> rpk q' -> wset q' k -> rset q k -> False.
 Proof.
   intros q q' k _ _ Hpk Hw Hr. destruct k as [pk|pk|pk f|t|pk dt w]; simpl in *.
@@ -34,10 +34,10 @@ Section Concrete.
   Variable wkey : W -> ekey.
   Hypothesis Hframe : forall s w k, wkey w <> k -> get (apply_w s w) k = get s k.
   Hypothesis Hreads : forall q s s', (forall k, rset q k -> get s k = get s' k) -> handler q s = handler q s'.
-  Hypothesis Hwrites : forall q s ws r, handler q s = Ok ws r -> forall w, In w ws -> wset q (wkey w).
+  Hypothesis Hwrites : forall q s ws r, batch_cand q = true -> handler q s = Ok ws r -> forall w, In w ws -> wset q (wkey w).
 
   Theorem isolation_concrete : forall q q' s' ws r s,
-    name_batchable q = true -> name_batchable q' = true -> rpk q <> rpk q' ->
+    batch_cand q = true -> batch_cand q' = true -> rpk q <> rpk q' ->
     handler q' s' = Ok ws r -> handler q (commit_ws store W apply_w s ws) = handler q s.
   Proof.
     apply (indep_from_rw_sets store W R ekey V apply_w handler get wkey rset wset Hframe Hreads Hwrites rw_isolation).
